@@ -39,7 +39,7 @@ for p in props:
             "evidence_file": "/verif/evidence/%s.json" % pid,
             "replay_cmd_template": "./check %s --replay {path}" % pid,
             "engine": "coq-proof+correspondence",
-            "level_claimed": {"category": "proof", "text": c["text"], "design_ref": c.get("design_ref", "DESIGN.md section 5 (%s)" % pid)},
+            "level_claimed": {"category": "proof", "text": c["text"], "design_ref": c.get("design_ref", "DESIGN.md chapter 12 (12.2 theorems per property, 12.8 for the structural json models of C01/C02/C14); the plan is section 5 (%s)" % pid)},
             "level_note": c["note"],
             "technique": c.get("technique", technique_of(cfg)),
         })
